@@ -233,10 +233,13 @@ CLAIMED["C02"] = dict(
          "row, leave the source untouched and never trip the internal offset assertion; updateMetadata sets min/max to the first/last "
          "timestamp.",
     note=MEASURE_NOTE + "Narrow claim, said plainly: the three places that actually resolve versions - the dedup loop of "
-         "memPart.mustInitFromDataPoints, mergeTwoBlocks and queryResult.merge - are NOT proved: their obligations were generated "
-         "but do not discharge within the time limit (state merges at inlined closure returns give ~300 KB queries; contracts parked "
-         "in /verif/notes), and the result heap needs a container/heap model. So 'a query never returns two points with the same "
-         "series and timestamp' is not decided end to end; only the order and row-copy primitives it is built from are.",
+         "memPart.mustInitFromDataPoints, mergeTwoBlocks and queryResult.merge - are NOT proved. For mergeTwoBlocks the full contract "
+         "(strictly increasing output, highest version wins, with all loop invariants) is written and about 1480 of its 1530 "
+         "obligations discharge (memory safety, every append precondition, frames, cursor discipline), but the ~40 obligations that "
+         "carry the property time out; it stays in the repository under the unclaimed section tag WIP-C02 and is not part of this "
+         "check. mustInitFromDataPoints' contract is parked in /verif/notes; the result heap needs a container/heap model. So 'a "
+         "query never returns two points with the same series and timestamp' is not decided end to end; only the order and "
+         "row-copy primitives it is built from are.",
     technique="contract-based deductive verification: VCs from the typed Go AST (govc), quantified postconditions over parallel "
               "column slices; obligations discharged by z3/cvc5",
     design="§3 C02")
